@@ -24,6 +24,9 @@ pub struct Screened {
     /// pairs of places ~20 m apart on opposite sides of a time-zone border (1e-4 degrees), found by
     /// walking along lines between cities with the library's own zone lookup
     pub border_pairs: Vec<((i32, i32), (i32, i32))>,
+    /// pairs of parseable expressions that differ in spacing only (a cache or interner with a
+    /// normalised key would conflate them)
+    pub spacing_variants: Vec<(String, String)>,
 }
 
 pub struct Pools {
@@ -41,6 +44,7 @@ pub struct Pools {
     /// a bounded-work matter, not a purity matter)
     pub sun_coords: Vec<(i32, i32)>,
     pub border_pairs: Vec<((i32, i32), (i32, i32))>,
+    pub spacing_variants: Vec<(String, String)>,
     pub instants: Vec<i64>,
     pub data: DataFiles,
 }
@@ -103,6 +107,15 @@ const SUN_EXPRS: &[&str] = &[
     "sunrise-12:00; 14:00-sunset unknown",
     "Mo-Su (dawn-00:30)-10:00, 18:00-(dusk+00:30)",
     "sunset-sunrise",
+];
+
+/// expression pairs that differ in spacing only and mean different things
+const CONFUSABLE: &[(&str, &str)] = &[
+    ("Mo-Fr 08:00-12:00,13:00-17:30", "Mo-Fr 08:00-12:00, 13:00-17:30"),
+    ("Jan 12:00-13:00", "Jan 1 2:00-13:00"),
+    ("Mo-Fr 10:00-12:00,14:00-16:00", "Mo-Fr 10:00-12:00, 14:00-16:00"),
+    ("Tu 09:00-11:00,Th 15:00-18:00", "Tu 09:00-11:00, Th 15:00-18:00"),
+    ("Dec 24 10:00-14:00", "Dec 2 4:00-14:00"),
 ];
 
 const INVALID: &[&str] = &["", "Mo-Fr 25:00-26:00", "not a valid expression", "Mo-Fr 09:00-17:00;;", "\"unbalanced", "Jan 32 10:00-12:00", "week 54 Mo 10:00-12:00"];
@@ -218,7 +231,29 @@ impl Pools {
         let easter_exprs = screen(EASTER_EXPRS.iter().map(|s| s.to_string()).collect(), Ctx::Default);
         let mut countries: Vec<String> = Country::ALL.iter().map(|c| c.iso_code().to_string()).collect();
         countries.sort();
-        Screened { exprs, holiday_exprs, easter_exprs, excluded, countries, border_pairs: find_border_pairs() }
+        // spacing variants: explicit confusable pairs + for every pool expression its comma-spacing toggled
+        // and its space-free form, kept when they parse, stay within the work budget and differ as strings
+        let mut cands: Vec<(String, String)> = CONFUSABLE.iter().map(|(a, b)| (a.to_string(), b.to_string())).collect();
+        for e in exprs.iter().chain(holiday_exprs.iter()) {
+            let strip_outside_quotes = |s: &str, f: &dyn Fn(&str) -> String| -> String {
+                s.split('"').enumerate().map(|(i, part)| if i % 2 == 0 { f(part) } else { part.to_string() }).collect::<Vec<_>>().join("\"")
+            };
+            let toggled = if e.contains(", ") { strip_outside_quotes(e, &|p| p.replace(", ", ",")) } else { strip_outside_quotes(e, &|p| p.replace(',', ", ")) };
+            let spaceless = strip_outside_quotes(e, &|p| p.replace(' ', ""));
+            for v in [toggled, spaceless] {
+                if &v != e {
+                    cands.push((e.clone(), v));
+                }
+            }
+        }
+        let mut spacing_variants = Vec::new();
+        for (a, b) in cands {
+            let ok = screen(vec![a.clone(), b.clone()], Ctx::Default);
+            if ok.len() == 2 {
+                spacing_variants.push((a, b));
+            }
+        }
+        Screened { exprs, holiday_exprs, easter_exprs, excluded, countries, border_pairs: find_border_pairs(), spacing_variants }
     }
 
     pub fn from_screened(s: Screened) -> Pools {
@@ -234,6 +269,7 @@ impl Pools {
             coords: COORDS.to_vec(),
             sun_coords: COORDS.iter().copied().filter(|c| c.0.abs() <= 600_000).collect(),
             border_pairs: s.border_pairs,
+            spacing_variants: s.spacing_variants,
             instants: instants(),
             data: DataFiles::load(),
         }
